@@ -15,7 +15,7 @@ for d in seeded/*/; do
   start=$(date +%s)
   wt=/tmp/seedwt-$$-$name
   where=""
-  for base in HEAD 864492d 9004744; do
+  for base in $(python3 -c "import json;m=json.load(open('$d/meta.json'));print(m.get('base_commit','') if m.get('pin_base') else '')") HEAD 864492d 9004744; do
     git -C /repo worktree add -q --detach $wt $base 2>/dev/null || continue
     if git -C $wt apply /verif/$d/patch.diff 2>/dev/null; then where=$base; break; fi
     git -C /repo worktree remove --force $wt
